@@ -11,6 +11,13 @@
 #include "awkward/partition/PartitionedArray.h"
 
 namespace awkward {
+  // x modulo m (m > 0) as a number in [0, m), without adding m to an
+  // intermediate result (for a step close to 2**63 that sum overflows)
+  static int64_t nonnegative_mod(int64_t x, int64_t m) {
+    int64_t r = x % m;
+    return (r < 0 ? r + m : r);
+  }
+
   PartitionedArray::PartitionedArray(const ContentPtrVec& partitions)
       : partitions_(partitions) {
     if (partitions_.empty()) {
@@ -168,7 +175,7 @@ namespace awkward {
             slice.append(SliceRange(index_start, plen, step));
             slice.become_sealed();
             p = p.get()->getitem(slice);
-            offset = ((index_start - plen) % step + step) % step;
+            offset = nonnegative_mod(index_start - plen, step);
           }
         }
         else if (partitionid == partitionid_last) {
@@ -187,7 +194,7 @@ namespace awkward {
           slice.append(SliceRange(offset, plen, step));
           slice.become_sealed();
           p = p.get()->getitem(slice);
-          offset = ((offset - plen) % step + step) % step;
+          offset = nonnegative_mod(offset - plen, step);
         }
 
         total_length += p.get()->length();
@@ -215,7 +222,7 @@ namespace awkward {
         else if (partitionid == partitionid_first) {
           a = index_start;
           b = -plen - 1;
-          offset = (((-1 - index_start) % -step + -step) % -step);
+          offset = nonnegative_mod(-1 - index_start, -step);
         }
         else if (partitionid == partitionid_last) {
           a = plen - 1 - offset;
@@ -224,7 +231,7 @@ namespace awkward {
         else {
           a = plen - 1 - offset;
           b = -plen - 1;
-          offset = (((-1 - (plen - 1 - offset)) % -step + -step) % -step);
+          offset = nonnegative_mod(-1 - (plen - 1 - offset), -step);
         }
         // Avoid Python-like negative index handling of -1 by setting them to
         // a sufficiently negative value to mean "all the way to the edge."
